@@ -15,6 +15,10 @@ Definition body_rd (f : frame) : Z -> res byte := rd_strict (f_body f).
 Definition check_wpa_handshake (f : frame) : res (outcome Z) :=
   if negb (fc_type (f_fc f) =? c_TYPE_DATA) then Done (Err (- EINVAL)) else
   if f_len f <? f_header_len f + llc_len then Done (Err (- EINVAL)) else
+  let* dsap := body_rd f off_libwifi_logical_link_ctrl__dsap in
+  let* ssap := body_rd f off_libwifi_logical_link_ctrl__ssap in
+  let* ctl := body_rd f off_libwifi_logical_link_ctrl__control in
+  if negb ((dsap =? 170) && (ssap =? 170) && (ctl =? 3)) then Done (Err (- EINVAL)) else
   let* oui := rd_bytes (body_rd f) (Z.to_nat fsz_libwifi_logical_link_ctrl__oui) off_libwifi_logical_link_ctrl__oui in
   if negb (if list_eq_dec Z.eq_dec oui c_XEROX_OUI then true else false) then Done (Err (- EINVAL)) else
   let* ty := rd_be (body_rd f) 2 off_libwifi_logical_link_ctrl__type in
